@@ -9,6 +9,10 @@
 //!
 //! f64 values travel as IEEE-754 bit patterns (decimal u64).
 //!
+//! Display: every code of `SIMPLE_CODES` (= the token lists of `Umya.Thm.C18.C18_simple_codes`) goes through
+//! `get_formatted_value` on a day stream and a second stream; the oracle is the token-by-token text
+//! (counters `fmt.<code>` = requests, `simple.<code>` = oracle evaluations).
+//!
 //! Oracle (independent of the crate, of chrono and of the Lean model): a naive calendar
 //! (leap rule, month table, cumulative day count from 0001-01-01) gives the expected serial day,
 //! the expected date of a serial and the next second.
@@ -220,18 +224,91 @@ fn ser_item(out: &mut Out, h0: u64, y: i64, m: i64, d: i64, secs_or_hms: (i64, i
     (reply, dom, hh)
 }
 
-/// formats whose expected text the harness knows how to build itself
-fn own_render(fmt: &str, t: &Dt) -> Option<String> {
-    let (y, m, d, h, mi, s) = *t;
-    match fmt {
-        "yyyy-mm-dd hh:mm:ss" => Some(format!("{:04}-{:02}-{:02} {:02}:{:02}:{:02}", y, m, d, h, mi, s)),
-        "yyyy-mm-dd" => Some(format!("{:04}-{:02}-{:02}", y, m, d)),
-        "dd/mm/yyyy" => Some(format!("{:02}/{:02}/{:04}", d, m, y)),
-        "yyyy/mm/dd" => Some(format!("{:04}/{:02}/{:02}", y, m, d)),
-        "d/m/yy" => Some(format!("{}/{}/{:02}", d, m, y % 100)),
-        "h:mm:ss" => Some(format!("{}:{:02}:{:02}", h, mi, s)),
-        _ => None,
+/// Tokens of a date-format code, as the harness reads them (mirrors `Umya.Lemmas.DateDisplay.Tok`;
+/// `Mi` = minutes, written `mm` like the month).
+#[derive(Clone, Copy)]
+enum Tk {
+    Yyyy,
+    Yy,
+    Mmm,
+    Mm,
+    M,
+    Dd,
+    D,
+    Hh,
+    H,
+    Mi,
+    Ss,
+    L(char),
+}
+use Tk::*;
+const MON3: [&str; 12] = ["Jan", "Feb", "Mar", "Apr", "May", "Jun", "Jul", "Aug", "Sep", "Oct", "Nov", "Dec"];
+fn tk_text(t: &Tk) -> String {
+    match t {
+        Yyyy => "yyyy".into(),
+        Yy => "yy".into(),
+        Mmm => "mmm".into(),
+        Mm | Mi => "mm".into(),
+        M => "m".into(),
+        Dd => "dd".into(),
+        D => "d".into(),
+        Hh => "hh".into(),
+        H => "h".into(),
+        Ss => "ss".into(),
+        L(c) => c.to_string(),
     }
+}
+/// the text a token stands for (independent of the crate and of chrono)
+fn tk_show(t: &Tk, dt: &Dt) -> String {
+    let (y, m, d, h, mi, s) = *dt;
+    match t {
+        Yyyy => format!("{:04}", y),
+        Yy => format!("{:02}", y % 100),
+        Mmm => MON3[(m - 1) as usize].into(),
+        Mm => format!("{:02}", m),
+        M => format!("{}", m),
+        Dd => format!("{:02}", d),
+        D => format!("{}", d),
+        Hh => format!("{:02}", h),
+        H => format!("{}", h),
+        Mi => format!("{:02}", mi),
+        Ss => format!("{:02}", s),
+        L(c) => c.to_string(),
+    }
+}
+/// The codes of `Umya.Thm.C18.C18_simple_codes` (same order, same token lists): every one is sent through
+/// `get_formatted_value` on the day and second streams and compared with the token-by-token text.
+const SIMPLE_CODES: [(&str, &[Tk]); 18] = [
+    ("yyyy-mm-dd", &[Yyyy, L('-'), Mm, L('-'), Dd]),
+    ("yyyy-mm-dd hh:mm:ss", &[Yyyy, L('-'), Mm, L('-'), Dd, L(' '), Hh, L(':'), Mi, L(':'), Ss]),
+    ("dd/mm/yyyy", &[Dd, L('/'), Mm, L('/'), Yyyy]),
+    ("yyyy/mm/dd", &[Yyyy, L('/'), Mm, L('/'), Dd]),
+    ("m/d/yyyy", &[M, L('/'), D, L('/'), Yyyy]),
+    ("d-mmm-yy", &[D, L('-'), Mmm, L('-'), Yy]),
+    ("d-mmm", &[D, L('-'), Mmm]),
+    ("mmm-yy", &[Mmm, L('-'), Yy]),
+    ("h:mm", &[H, L(':'), Mi]),
+    ("h:mm:ss", &[H, L(':'), Mi, L(':'), Ss]),
+    ("m/d/yyyy h:mm", &[M, L('/'), D, L('/'), Yyyy, L(' '), H, L(':'), Mi]),
+    ("m/d/yy", &[M, L('/'), D, L('/'), Yy]),
+    ("mm:ss", &[Mi, L(':'), Ss]),
+    ("d/m/yy", &[D, L('/'), M, L('/'), Yy]),
+    ("dd-mm-yyyy", &[Dd, L('-'), Mm, L('-'), Yyyy]),
+    ("mm-dd-yy", &[Mm, L('-'), Dd, L('-'), Yy]),
+    ("m/d/yy h:mm", &[M, L('/'), D, L('/'), Yy, L(' '), H, L(':'), Mi]),
+    ("dd.mm.yyyy, hh:mm", &[Dd, L('.'), Mm, L('.'), Yyyy, L(','), L(' '), Hh, L(':'), Mi]),
+];
+
+/// formats whose expected text the harness knows how to build itself: the `SIMPLE_CODES`, token by token
+/// (trimmed of blanks at both ends, as `to_formatted_string` does)
+fn own_render(fmt: &str, t: &Dt) -> Option<String> {
+    for (code, toks) in SIMPLE_CODES.iter() {
+        if *code == fmt {
+            let s: String = toks.iter().map(|k| tk_show(k, t)).collect();
+            return Some(s.trim_matches(' ').to_string());
+        }
+    }
+    None
 }
 
 pub fn exec(out: &mut Out, line: &str) -> (String, bool) {
@@ -352,6 +429,7 @@ pub fn exec(out: &mut Out, line: &str) -> (String, bool) {
                             let want_t = (ey, em, ed, sec / 3600, sec % 3600 / 60, sec % 60);
                             if let Some(want) = own_render(&fmt, &want_t) {
                                 nt = true;
+                                out.count(&format!("simple.{}", fmt));
                                 if s == want {
                                     out.oracle_ok();
                                 } else {
@@ -601,6 +679,32 @@ pub fn gen_each(tier: Tier, seed: u64, f: &mut dyn FnMut(String)) {
     while t < 86400 {
         f(format!("c18 fmt {} {}", hex(FORMATS[0]), serial_bits_for(y, m, d, t)));
         t += step;
+    }
+    // ---- every SimpleDateCode of C18_simple_codes on a day stream and on a second stream
+    for (ci, (code, toks)) in SIMPLE_CODES.iter().enumerate() {
+        let text: String = toks.iter().map(tk_text).collect();
+        assert_eq!(&text, code, "token list of a simple code does not spell the code");
+        let stride: i64 = if thorough { 97 * 8 } else { 97 * 48 };
+        let mut k = (ci as i64 * 89 + (seed % 89) as i64) % stride;
+        let mut j = ci;
+        while k <= LAST_DAY_INDEX {
+            let (y, m, d) = civil_of(day_number(1900, 1, 1) + k);
+            f(format!("c18 fmt {} {}", hex(code), serial_bits_for(y, m, d, TIMES[j % 5])));
+            k += stride;
+            j += 1;
+        }
+        for (y, m, d) in [(1900i64, 1i64, 1i64), (1900, 2, 28), (1900, 3, 1), (9999, 12, 31)] {
+            for t in [0i64, 1, 86399] {
+                f(format!("c18 fmt {} {}", hex(code), serial_bits_for(y, m, d, t)));
+            }
+        }
+        let (y, m, d) = REP_DAYS[((seed / 12 + ci as u64) % 12) as usize];
+        let step: i64 = if thorough { 13 } else { 997 };
+        let mut t = ((seed + ci as u64) % step as u64) as i64;
+        while t < 86400 {
+            f(format!("c18 fmt {} {}", hex(code), serial_bits_for(y, m, d, t)));
+            t += step;
+        }
     }
     for fm in ["General", "@", "0.00", "YYYY-MM-DD", "yyyy\"x\"mm", "[h]:mm", "[$-409]d-mmm-yy", "yyyy%mm", "d\\-m", "", "s", "y", "e", "hh", "mmmmm", "a/p", "yyyy-mm-dd hh:mm:ss.s", "é", "dd mm yyyy "] {
         for x in [45435.0f64, 44349.211134259262, 1.0, 59.5, 61.0, 2958465.999988426] {
